@@ -6,6 +6,7 @@ require (
 	github.com/AliyunContainerService/terway v0.0.0
 	github.com/aliyun/alibaba-cloud-sdk-go v1.63.88
 	github.com/anishathalye/porcupine v1.3.0
+	github.com/evanphx/json-patch v5.6.0+incompatible
 	github.com/vishvananda/netlink v1.2.1-beta.2
 	golang.org/x/time v0.7.0
 	k8s.io/api v0.32.2
@@ -26,7 +27,6 @@ require (
 	github.com/coreos/go-iptables v0.6.0 // indirect
 	github.com/davecgh/go-spew v1.1.2-0.20180830191138-d8f796af33cc // indirect
 	github.com/emicklei/go-restful/v3 v3.11.0 // indirect
-	github.com/evanphx/json-patch v5.6.0+incompatible // indirect
 	github.com/evanphx/json-patch/v5 v5.9.11 // indirect
 	github.com/fsnotify/fsnotify v1.7.0 // indirect
 	github.com/fxamacker/cbor/v2 v2.7.0 // indirect
